@@ -364,3 +364,25 @@ def d6(cx: Cx, ob: Ob) -> None:
                 ob.violate(fn.qualname, where(fn, ev.line), f"a layer selects pairs by their OLD prefix (`{show(test)[:50]}`): the chain is peeled from the wrong end", detail="layer-by-key")
             else:
                 ob.undecide(f"layer test `{show(test)[:60]}` not recognised")
+
+
+@obligation("C11-X7", "IDX (shared with C01/C02): the lookup tables consulted by the `synonym_to_prefix` / standardize_prefix lookups of remap_curie_prefixes and its validation hold every name of every record, unconditionally and completely, on the constructor path and in _index (converters built incrementally answer like freshly built ones)", floor=4)
+def x7(cx: Cx, ob: Ob) -> None:
+    from .c01 import check_table_roles
+
+    check_table_roles(cx, ob, ["prefix_map", "synonym_to_prefix"])
+
+
+@obligation("C11-X6", "LOOKUP None-discipline (shared with C02-D3): lookup results and str|None results are tested with `is None`, never by truthiness - the empty prefix, the empty URI prefix and the empty identifier are legitimate values", floor=40)
+def x6(cx: Cx, ob: Ob) -> None:
+    from ..rules import scan_none_discipline
+    from .c02 import none_scope
+
+    scan_none_discipline(cx, ob, none_scope(cx))
+
+
+@obligation("C11-X11", "get_record scans the live record list and matches the canonical prefix or any synonym: remap_curie_prefixes renames records in place while it runs, so a lookup relying on sortedness or on an index would miss the clash (shared with C02-D7)", floor=1)
+def x11(cx: Cx, ob: Ob) -> None:
+    from .c02 import check_get_record
+
+    check_get_record(cx, ob)
